@@ -67,6 +67,8 @@ pub struct Monitors {
     one_at_a_time: bool,
     conn: HashMap<usize, ConnMon>,
     inbound_qos2: HashSet<u16>,
+    /// QoS2 ids whose membership in the engine's set cannot be inferred (they were in a delivery that failed part-way)
+    inbound_qos2_unknown: HashSet<u16>,
     interrupted_set: HashSet<u64>,
     id_holders: HashMap<u16, Vec<usize>>,
     min_unresolved: usize,
@@ -78,6 +80,7 @@ pub struct Monitors {
     ping_timeout_ms: u64,
     ping_timeout_max: bool,
     pub stronger_slow_start_hits: usize,
+    blind: bool,
 }
 
 fn sig(pairs: &[(&str, String)]) -> BTreeMap<String, String> {
@@ -94,9 +97,9 @@ impl Monitors {
         Monitors {
             violations: Vec::new(), counters: BTreeMap::new(), seen: HashSet::new(), honest, responsive, keepalive_mode, v5: case.engine.v5,
             policy: case.engine.policy, max_retries: case.engine.max_retries, one_at_a_time: case.engine.one_at_a_time, conn: HashMap::new(),
-            inbound_qos2: HashSet::new(), interrupted_set: HashSet::new(), id_holders: HashMap::new(), min_unresolved: 0, prev: None, spin_run: 0, successes_since_reset: 0,
+            inbound_qos2: HashSet::new(), inbound_qos2_unknown: HashSet::new(), interrupted_set: HashSet::new(), id_holders: HashMap::new(), min_unresolved: 0, prev: None, spin_run: 0, successes_since_reset: 0,
             audit_pending: None, connect_spec: case.engine.connect.clone(), ping_timeout_ms: case.engine.ping_timeout_ms, ping_timeout_max: case.engine.ping_timeout_max,
-            stronger_slow_start_hits: 0,
+            stronger_slow_start_hits: 0, blind: false,
         }
     }
 
@@ -115,6 +118,19 @@ impl Monitors {
 
     pub fn on_step(&mut self, world: &World, rec: &StepRecord, delta: &Delta, ctx: &StepContext) {
         self.c11_panics(world, rec, ctx);
+        if delta.connack_opaque {
+            // a CONNACK the engine accepted but the reference decoder could not frame: from here on
+            // the session outcome and the announced capabilities are unknown to the monitors
+            if self.honest { self.viol("HARNESS", "HARNESS.bookkeeping", sig(&[]), rec.index, "an honest broker's CONNACK could not be decoded by the reference decoder".into()); }
+            self.blind = true;
+            self.count("harness.blind_after_opaque_connack");
+        }
+        if self.blind {
+            self.c01(world, rec, delta, ctx);
+            self.c11_rules(world, rec, delta);
+            self.prev = Some((rec.time_ms, rec.next_service_ms, rec.index));
+            return;
+        }
         self.c02_wire(world, rec, delta);
         self.c01(world, rec, delta, ctx);
         self.c04_c06_c10_c09_c17_out(world, rec, delta);
@@ -129,6 +145,7 @@ impl Monitors {
         if let Event::Reset = rec.event {
             self.successes_since_reset = 0;
             self.inbound_qos2.clear();
+            self.inbound_qos2_unknown.clear();
             self.interrupted_set.clear();
         }
         if delta.connack_accepted { self.successes_since_reset += 1; }
@@ -574,12 +591,16 @@ impl Monitors {
             let c = match world.current { Some(c) => c, None => return };
             if delta.connack_accepted {
                 let sp = world.conns[c].connack.as_ref().map(|k| k.session_present).unwrap_or(false);
-                if !sp { self.inbound_qos2.clear(); }
+                if !sp { self.inbound_qos2.clear(); self.inbound_qos2_unknown.clear(); }
             }
             let client_alias_max = if self.v5 { self.connect_spec.topic_alias_maximum.unwrap_or(0) } else { 0 };
-            let mut expected_surface: Vec<(Vec<u8>, String)> = Vec::new();
+            // (payload, topic, optional): optional entries may or may not be surfaced
+            let mut expected_surface: Vec<(Vec<u8>, String, bool)> = Vec::new();
             let mut invalid_seen = false;
-            let accepted = world.conns[c].connack.is_some();
+            let mut valid_prefix: Vec<(Vec<u8>, String)> = Vec::new();
+            let accepted = world.conns[c].connack_step.is_some();
+            let step_failed = rec.result.is_err() || rec.result.is_panic();
+            let surfaced: Vec<(Vec<u8>, String)> = rec.inbound.iter().filter_map(|e| if let InboundView::Publish(p) = e { Some((p.payload.clone(), p.topic.clone())) } else { None }).collect();
             for (_, ii) in &delta.new_inbound {
                 let ip = &world.conns[c].inbound[*ii];
                 if !accepted { continue; }
@@ -601,41 +622,79 @@ impl Monitors {
                             invalid_seen = true;
                         }
                         if invalid_seen { self.count("c17.in_invalid"); break; }
+                        valid_prefix.push((p.payload.clone(), topic.clone()));
+                        if step_failed {
+                            // the engine stopped somewhere in this delivery: only what it surfaced is certain
+                            if p.qos == 2 {
+                                let id = p.packet_id.unwrap_or(0);
+                                if surfaced.iter().any(|s| s.0 == p.payload) { self.inbound_qos2.insert(id); self.inbound_qos2_unknown.remove(&id); }
+                                else if !self.inbound_qos2.contains(&id) { self.inbound_qos2_unknown.insert(id); }
+                            }
+                            continue;
+                        }
                         match p.qos {
-                            0 => expected_surface.push((p.payload.clone(), topic)),
-                            1 => { expected_surface.push((p.payload.clone(), topic)); self.cm(c).obligations.push_back(("PUBACK", p.packet_id.unwrap_or(0))); }
+                            0 => expected_surface.push((p.payload.clone(), topic, false)),
+                            1 => { expected_surface.push((p.payload.clone(), topic, false)); self.cm(c).obligations.push_back(("PUBACK", p.packet_id.unwrap_or(0))); }
                             _ => {
                                 let id = p.packet_id.unwrap_or(0);
-                                if self.inbound_qos2.insert(id) { expected_surface.push((p.payload.clone(), topic)); } else { self.count("c05.qos2_duplicates_suppressed"); }
+                                if self.inbound_qos2_unknown.remove(&id) {
+                                    expected_surface.push((p.payload.clone(), topic, true));
+                                    self.inbound_qos2.insert(id);
+                                } else if self.inbound_qos2.insert(id) {
+                                    expected_surface.push((p.payload.clone(), topic, false));
+                                } else {
+                                    self.count("c05.qos2_duplicates_suppressed");
+                                }
                                 self.cm(c).obligations.push_back(("PUBREC", id));
                             }
                         }
                     }
                     rf::Packet::Pubrel(a) => {
                         self.count("c05.inbound_pubrels");
+                        if step_failed {
+                            if self.inbound_qos2.remove(&a.packet_id) { self.inbound_qos2_unknown.insert(a.packet_id); }
+                            continue;
+                        }
                         self.inbound_qos2.remove(&a.packet_id);
+                        self.inbound_qos2_unknown.remove(&a.packet_id);
                         self.cm(c).obligations.push_back(("PUBCOMP", a.packet_id));
                     }
                     _ => {}
                 }
             }
-            let surfaced: Vec<(Vec<u8>, String)> = rec.inbound.iter().filter_map(|e| if let InboundView::Publish(p) = e { Some((p.payload.clone(), p.topic.clone())) } else { None }).collect();
+            // match surfaced against expected, allowing optional entries to be absent
+            let matches = |surfaced: &Vec<(Vec<u8>, String)>, expected: &Vec<(Vec<u8>, String, bool)>, with_topic: bool| -> bool {
+                let mut si = 0;
+                for (pl, tp, optional) in expected.iter() {
+                    let hit = si < surfaced.len() && surfaced[si].0 == *pl && (!with_topic || surfaced[si].1 == *tp);
+                    if hit { si += 1; } else if !*optional { return false; }
+                }
+                si == surfaced.len()
+            };
             if invalid_seen {
                 if !rec.result.is_err() {
                     self.viol("C17", "C17.I2-invalid-alias-accepted", sig(&[]), rec.index, "an unknown / zero / out-of-range inbound alias did not fail the connection".into());
                 }
                 // nothing beyond the valid prefix may be surfaced
-                if surfaced.len() > expected_surface.len() || surfaced.iter().zip(expected_surface.iter()).any(|(a, b)| a != b) {
+                // surfaced must be an in-order subsequence of the publishes that precede the invalid one
+                let mut pi = 0;
+                let mut ok = true;
+                for s in surfaced.iter() {
+                    while pi < valid_prefix.len() && valid_prefix[pi] != *s { pi += 1; }
+                    if pi == valid_prefix.len() { ok = false; break; }
+                    pi += 1;
+                }
+                if !ok {
                     self.viol("C17", "C17.I3-surfaced-despite-invalid-alias", sig(&[]), rec.index, format!("surfaced {:?}", surfaced.iter().map(|s| s.1.clone()).collect::<Vec<_>>()));
                 }
                 self.cm(c).errored = true;
             } else if rec.result == CallResult::Ok && self.honest {
-                if surfaced != expected_surface {
-                    let topics_equal = surfaced.len() == expected_surface.len() && surfaced.iter().zip(expected_surface.iter()).all(|(a, b)| a.0 == b.0);
-                    if topics_equal {
+                if !matches(&surfaced, &expected_surface, true) {
+                    if matches(&surfaced, &expected_surface, false) {
                         self.viol("C17", "C17.I1-surfaced-wrong-topic", sig(&[]), rec.index, format!("surfaced topics {:?} expected {:?}", surfaced.iter().map(|s| s.1.clone()).collect::<Vec<_>>(), expected_surface.iter().map(|s| s.1.clone()).collect::<Vec<_>>()));
                     } else {
-                        self.viol("C05", "C05.R1-surface-mismatch", sig(&[("surfaced", surfaced.len().to_string()), ("expected", expected_surface.len().to_string())]), rec.index, format!("surfaced {} publishes, reference receiver expects {}", surfaced.len(), expected_surface.len()));
+                        let required = expected_surface.iter().filter(|e| !e.2).count();
+                        self.viol("C05", "C05.R1-surface-mismatch", sig(&[("surfaced", surfaced.len().to_string()), ("expected", required.to_string())]), rec.index, format!("surfaced {} publishes, reference receiver expects {} (+{} undetermined)", surfaced.len(), required, expected_surface.len() - required));
                     }
                 }
             }
